@@ -93,8 +93,11 @@ pub fn to_aj(v: &Value) -> Value {
         Value::String(s) => json!({"t":"s","v":cps(s)}),
         Value::Array(a) => json!({"t":"a","v":a.iter().map(to_aj).collect::<Vec<_>>()}),
         Value::Object(o) => {
-            // serde_json's Map (BTreeMap) iterates in byte order = code point order
-            let kv: Vec<Value> = o.iter().map(|(k, v)| json!([cps(k), to_aj(v)])).collect();
+            // members sorted by key in byte order = code point order (what serde_json's default BTreeMap gives
+            // anyway; explicit so that the wire form does not depend on how the crate under test configures serde_json)
+            let mut members: Vec<(&String, &Value)> = o.iter().collect();
+            members.sort_by(|a, b| a.0.cmp(b.0));
+            let kv: Vec<Value> = members.into_iter().map(|(k, v)| json!([cps(k), to_aj(v)])).collect();
             json!({"t":"o","v":kv})
         }
         Value::Number(n) => num_to_aj(n),
@@ -235,7 +238,8 @@ pub fn same(exp: &Value, act: &Value, zlax: bool) -> bool {
         }
         "o" => {
             let (a, b) = (exp["v"].as_array().unwrap(), act["v"].as_array().unwrap());
-            a.len() == b.len() && a.iter().zip(b).all(|(x, y)| x[0] == y[0] && same(&x[1], &y[1], zlax))
+            // an object is a set of members: the order in which either side lists them is irrelevant
+            a.len() == b.len() && a.iter().all(|x| b.iter().any(|y| x[0] == y[0] && same(&x[1], &y[1], zlax)))
         }
         _ => false,
     }
@@ -251,7 +255,8 @@ pub fn selftest() -> Result<(), String> {
         let v: Value = serde_json::from_str(t).map_err(|e| format!("{}: {}", t, e))?;
         let a = to_aj(&v);
         let back = from_aj(&a).map_err(|e| format!("{}: {}", t, e))?;
-        if back.to_string() != v.to_string() {
+        // same value and same number spellings (the wire form carries the text); member order is canonical
+        if to_aj(&back) != a {
             return Err(format!("AJ round trip failed for {}: {} vs {}", t, back, v));
         }
         if !same(&a, &to_aj(&back), false) {
